@@ -3,8 +3,8 @@ from .. import core
 from . import c15
 
 ACTS = {'Construct': 2, 'GetPos': 1, 'GetDisp': 2, 'CumDisp': 1, 'Slice': 1, 'Filter': 1, 'Split': 1, 'ReadOnly': 1,
-        'Drift': 4, 'ApplyDrift': 5}
-JUDGED = {'Drift', 'ApplyDrift'}
+        'Drift': 4, 'ApplyDrift': 5, 'GaugePair': 2}
+JUDGED = {'Drift', 'ApplyDrift', 'Gauge'}
 
 
 def run(rep):
@@ -16,7 +16,8 @@ def run(rep):
                 'filtered, split and already-corrected objects; the trace spec computes the corrected walk exactly in units 1/(N*L) and checks: '
                 'drift value, corrected object = first frame + cumulative (steps - mean reference step), mean reference step zero in every '
                 'frame, first frame / species / time step / metadata unchanged, idempotence (second correction with the same reference is '
-                'judged like any other), floating = complement of fixed (same spec expectation for both spellings). '
+                'judged like any other), floating = complement of fixed (same spec expectation for both spellings), gauge: an object and its copy with a '
+                'rigid time-dependent translation, corrected with the same reference, have identical corrected steps. '
                 'Non-trivial = judged Drift/ApplyDrift event.')
     rep.assumptions = ['per-step displacements below a quarter cell (so corrected steps stay minimum-image; pymatgen documents the assumption)',
                        'inputs on the /16 grid and <= 4 reference atoms so that means stay on the /192 grid (thirds are exact to 1 ulp; alpha tolerance 1e-6)',
@@ -24,5 +25,5 @@ def run(rep):
     r = core.model_check('MC_Trajectory', c15.mc_cfg(4 if quick else 6, 3, ['AbsStable', 'DriftZero', 'DriftKeepsFirstFrame']),
                          workers=8, timeout=2400)
     rep.add_model('MC_Trajectory (DriftZero, DriftKeepsFirstFrame, AbsStable)', r)
-    c15.leg_b(rep, 60 if quick else 1000, 20, ACTS, judged=JUDGED, seed_off=13)
+    c15.leg_b(rep, 60 if quick else 1000, 20, ACTS, judged=JUDGED, seed_off=13, max_step=2)
     rep.exhaustive = True
